@@ -112,15 +112,20 @@ func (rr Regions) Resize(mod Modifier) Region {
 	}
 
 	left, right := 0, 0
+	ldone, rdone := false, false
 	for k := 0; k+1 < len(rr); k++ {
 		n := rr[k].Len()
-		if n < lower {
+		if !ldone && n < lower {
 			left = k + 1
 			lower -= n
+		} else {
+			ldone = true
 		}
-		if n < upper {
+		if !rdone && n < upper {
 			right = k + 1
 			upper -= n
+		} else {
+			rdone = true
 		}
 	}
 
